@@ -143,7 +143,8 @@ def concatenate_clauses(ctx):
                     'target fields (null default) plus the mapped non-null values; selected descriptors are dropped and counted, '
                     'unselected ones kept; the target is placed once (first gap or end); the stream phase chains the current '
                     'resource with the next count-1 resources of the same iterator')
-    cat = repo.func('dataflows.processors.concatenate:concatenator')
+    cat = ctx.N(repo.func('dataflows.processors.concatenate:concatenator'))
+    cat0 = repo.func('dataflows.processors.concatenate:concatenator')
     func = repo.func('dataflows.processors.concatenate:concatenate.func')
     loops = [n for n in own_nodes(cat.node) if isinstance(n, ast.For)]
     ok = len(loops) == 2 and pseudo(loops[0].iter) == cat.params[0] and isinstance(loops[0].target, ast.Name) \
@@ -163,9 +164,11 @@ def concatenate_clauses(ctx):
                 r = facts.roots(ys[0].value)
                 good = {rowv, cat.params[1], cat.params[2]} <= r
                 # null default for every target field
-                init = [v for v in facts.values_of(ys[0].value.id) if isinstance(v, ast.Call) and u(v.func) == 'dict']
-                good = good and any(cat.params[1] in names_in(v) and
-                                    any(isinstance(c, ast.Constant) and c.value is None for c in ast.walk(v)) for v in init)
+                from sa.pattern import match_expr as _me
+                init = [v for v in facts.assigns.get(ys[0].value.id, [])]
+                good = good and any(_me('{_k: None for _k in %s}' % cat.params[1], v) is not None or
+                                    _me('dict.fromkeys(%s)' % cat.params[1], v) is not None or
+                                    _me('dict.fromkeys(%s, None)' % cat.params[1], v) is not None for v in init)
             run.check(good, 'CAT', where(repo, inner), cat.qualname, 'one fresh row per input row',
                       'a concatenated row is lost, duplicated, or not built from (all target fields -> None) + mapped values',
                       path=p.describe())
@@ -228,7 +231,7 @@ def concatenate_clauses(ctx):
         if s.atoms.get(('MATCH',)) is True:
             facts = Facts(func, include_nested=False)
             y = s.yields[0][1].value if s.yields else None
-            good = isinstance(y, ast.Call) and any(isinstance(t, FuncInfo) and t is cat for t in res.resolve_call(y))
+            good = isinstance(y, ast.Call) and any(isinstance(t, FuncInfo) and t is cat0 for t in res.resolve_call(y))
             chain = None
             if good:
                 for v in [y.args[0]] + list(facts.values_of(pseudo(y.args[0]) or '')):
